@@ -51,7 +51,7 @@ struct ProcSpec {
 
 struct Plan : sim::PlanBase {
   int J = 4;
-  std::vector<int> init_status;       // per job: 0 AVAILABLE, 1 COMPLETE(old), 2 FAILED(old), 3 ASSIGNED(old)
+  std::vector<int> init_status;       // per job: 0 AVAILABLE, 1 COMPLETE, 2 FAILED, 3 ASSIGNED by the vanished host oldhost:1; 4..6 the same by oldhost:12
   std::vector<ProcSpec> procs;
   std::vector<KillSpec> kills;
   double short_write = 0, short_read = 0, fail_rate = 0;
@@ -581,7 +581,7 @@ struct Jobs {
     p.J = r.chance(0.7) ? 1 + (int)r.below(8) : 1 + (int)r.below(24);
     bool history = r.chance(0.35);
     p.init_status.assign((size_t)p.J, 0);
-    if (history) for (int j = 0; j < p.J; j++) if (r.chance(0.4)) p.init_status[(size_t)j] = 1 + (int)r.below(3);
+    if (history) for (int j = 0; j < p.J; j++) if (r.chance(0.4)) p.init_status[(size_t)j] = 1 + (int)r.below(3) + (r.chance(0.3) ? 3 : 0);
     int P1 = 1 + (int)r.below(3);
     if (r.chance(0.15)) P1 = 4;
     for (int i = 0; i < P1; i++) {
@@ -769,12 +769,14 @@ struct Jobs {
       t.id = j + 1;
       t.tag = "tag" + std::to_string(j + 1);
       t.input = "in" + std::to_string(j + 1);
-      int s = p.init_status[(size_t)j];
+      int s0 = p.init_status[(size_t)j];
+      int s = s0 > 3 ? s0 - 3 : s0;
+      const char *oldhost = s0 > 3 ? "oldhost:12" : "oldhost:1";  // only oldhost:1 is ever named by a restart pattern
       t.status = s == 0 ? "AVAILABLE" : s == 1 ? "COMPLETE" : s == 2 ? "FAILED" : "ASSIGNED";
       o << "\t<job>\n\t\t<id>" << t.id << "</id>\n\t\t<tag>" << t.tag << "</tag>\n\t\t<input>" << t.input << "</input>\n\t\t<status>" << t.status << "</status>\n";
       if (s != 0) {
-        t.host = "oldhost:1"; t.has_host = true;
-        o << "\t\t<host>oldhost:1</host>\n\t\t<time>10:00:00</time>\n";
+        t.host = oldhost; t.has_host = true;
+        o << "\t\t<host>" << oldhost << "</host>\n\t\t<time>10:00:00</time>\n";
         if (s == 1) { t.output = "oldout" + std::to_string(j + 1); t.has_output = true; o << "\t\t<output>" << t.output << "</output>\n"; }
         if (s == 2) { t.error = "olderr" + std::to_string(j + 1); t.has_error = true; o << "\t\t<error>" << t.error << "</error>\n"; }
       }
